@@ -1174,6 +1174,7 @@ class Sequence:
         #If there are no charged residues
         elif(self.FCR() == 0):
             self.dmax = 0
+            self.seqDeltaMax = self.seq
 
         #################################################################
         # FIRST computational trick - if only positive or negative
